@@ -327,8 +327,27 @@ def fam_uni(tier):
     env2.alpha = [b'a', b'A', ea, zh, em, b'\r', b'\n']
     env2.maxlen = 3 if tier == 'quick' else 4
     env2.family = 'uni'
+    # first / last code point of every UTF-8 lead-byte class (C2, DF, E0, E1, EC, ED, EE, EF, F0, F1, F4; assigned printable ones where the class has any, so that Rust's {:?} keeps them literal) and the other case of the
+    # non-ASCII insensitive literal: alone, doubled, before and after an ASCII letter
+    edge = ['\u0080', '\u07e0', '\u0800', '\u0e01', '\u0f40', '\u1000', '\uc000', '\ud7a3', '\ue000', '\uff01', '\ufffd',
+            '\U00010000', '\U0003134a', '\U00040000', '\U0010ffff', '\u00c9']
+    env2.extra = [x.encode('utf8') for c in edge for x in (c, c + c, c + 'a', 'a' + c, c + 'A', '\u00e9' + c, c + '\u00e9A')]
     env2.pred_names = ['ALPHABETIC']
-    return [env, env2]
+    # CRLF texts under rules that take the CR as ordinary content: the furthest position can fall between CR and LF
+    # (error location, line / column and head line of the report at such an offset)
+    crlf_rules = [
+        ('line', 'true', 'span', star('off', seq('off', neg(S('\n')), 'any')), False),
+        ('field', 'true', 'span', star('off', seq('off', neg(choice(S(','), S('\n'))), 'any')), False),
+        ('recend', 'inh', 'both', S('\r\n'), False),
+        ('rec', 'inh', 'both', seq('inh', rule('field'), star('inh', seq('inh', S(','), rule('field'))), rule('recend')), False),
+        ('recs', 'inh', 'both', seq('inh', plus('inh', rule('rec')), rule('EOI')), False),
+    ]
+    env3 = Env('un_crlf', skip=None, rules=crlf_rules, shapes=[('rule', r[0]) for r in crlf_rules])
+    env3.alpha = [b'a', b',', b'\r', b'\n']
+    env3.maxlen = 4 if tier == 'quick' else 5
+    env3.extra = [b'a,b\r\nc,d\r\n', b'abc\r\nxyz', b'a\r\n\r\nb', 'é,\r\n'.encode()]
+    env3.family = 'uni'
+    return [env, env2, env3]
 
 
 def catalogue(tier):
